@@ -93,6 +93,12 @@ loop(F_OR, "ORSet.merge", 2, modifies=[("ORSet", "_entries")], inv=[
     ("removed-joined", _removed_joined),
 ])
 
+# CRDTStore._handle_gossip_push: for p in self._peers: if p.name == source_name: requester = p; break
+# (the contracts of the store live in specs/c18_ext.py, imported by the last line of this file)
+F_STORE = "happysimulator/components/crdt/crdt_store.py"
+loop(F_STORE, "CRDTStore._handle_gossip_push", 1, types={"requester": OptRef("Entity"), "p": Ref("Entity")}, inv=[
+    ("no-requester-yet", lambda L: L.requester is None)])
+
 
 from happysimulator.core.logical_clocks import (LamportClock, VectorClock, HLCTimestamp,  # noqa: E402
                                                  HybridLogicalClock)
@@ -112,7 +118,29 @@ PROPERTY = {
         "Fidge/Mattern theorem for any implementation meeting the proved step contracts (cited, not re-proved)",
         "composition of per-step contracts along a happened-before chain is by induction on the chain (lemmas "
         "chain-step-* are the induction steps)",
+        # ---- extension (specs/c18_ext.py)
+        "CRDTStore is verified as a COUNTER store: _crdts is Map(Str, Ref(GCounter)) and crdt_factory is "
+        "`lambda node_id: GCounter(node_id)` (class CounterFactory) as in tests/ and examples/; PN-counter, OR-set and "
+        "LWW stores are covered by the bounded stand-in crdt-store-gossip only",
+        "gossip handlers are verified for incoming states of exactly two keys with the fixed names 'k1', 'k2' whose "
+        "contents (the peer's replicas, the local store: both, one or neither key present) are arbitrary; key strings are "
+        "only hashed and compared by the handlers, the loop over the incoming dict is the native dict iteration",
+        "an event is represented by the two attributes the handlers read (event_type, context['metadata'] as the dict "
+        "Network.send builds: source, destination + payload)",
+        "Network.send, CRDTStore._serialize_state and CRDTStore._state_hash are opaque stubs in the handler tasks (the "
+        "handlers are proved to send the very value _serialize_state returned; that this value is the full current state "
+        "is checked by the bounded stand-in); random.choice(peers) is an arbitrary element of peers",
+        "heap typing of a store: the replicas in _crdts are allocated objects, none of them shared with the sender "
+        "(serialised state is rebuilt by from_dict on the receiving side); containers have value semantics in the engine, "
+        "so a to_dict that hands out its live dict instead of a copy is not detected deductively (bounded stand-in: "
+        "state is compared after every step)",
+        "NodeClock._model is None, a FixedSkew or a LinearDrift (ClockModel is a Protocol; user models are out of scope); "
+        "LinearDrift monotonicity is stated for true_time >= 0 and rate_ppm >= -1e6 (below that the modelled clock runs "
+        "backwards by design); floats are reals (A-float)",
+        "the yields of the store's handlers are modelled with the store's and the replicas' fields stable across the "
+        "yield: no handler touches state after its yield, so the clauses are evaluated in the state at the yield",
     ],
+    "bounded": [],
 }
 
 # ============================================================================ Lamport
@@ -166,7 +194,7 @@ fn(VectorClock, "receive", args={"remote": VMAP},
     ("own-max+1", lambda s: view(s.self._vector, s.self._node_id) ==
         vmax(view(s.old(s.self)._vector, s.self._node_id), view(s.remote, s.self._node_id)) + 1)])
 
-fn(VectorClock, "happened_before", args={"other": Ref(VectorClock)}, ensures=[
+fn(VectorClock, "happened_before", args={"other": Ref(VectorClock)}, returns=Bool, modifies=[], ensures=[
     ("iff-spec", lambda s: iff(s.result,
         forall(Str, lambda n: view(s.self._vector, n) <= view(s.other._vector, n))
         & exists(Str, lambda n: view(s.self._vector, n) < view(s.other._vector, n)))),
@@ -532,3 +560,22 @@ def _orset_join_laws():
 
 
 lemma("orset-join-laws", _orset_join_laws)
+
+
+# ============================================================================ bounded stand-in + extension
+def _store_gossip_standin(seed, tier):
+    """CRDTStore clusters of every CRDT type against an op-based oracle (triage/c18_store_gossip.py): what the deductive
+    part cannot reach - _serialize_state (dict comprehension), ORSet.to_dict/from_dict (heterogeneous lists),
+    value / elements / __eq__ (sums, generator expressions), VectorClock.merge, stores of PN-counters, OR-sets, LWW
+    registers.  The script narrows its family by source tests while the two C18 repairs are not applied."""
+    return run_native_script("triage/c18_store_gossip.py", 150 if tier == "quick" else 4000, seed)
+
+
+PROPERTY["bounded"].append({
+    "name": "crdt-store-gossip",
+    "bound": "150 (quick) / 4000 (thorough) seeded schedules: 2-4 stores of one CRDT type (G, PN, OR-set, LWW with HLCs on "
+             "skewed / drifting NodeClocks), 1-3 keys, 8-20 writes / gossip rounds, then full pairwise gossip twice; + as "
+             "many random VectorClock.merge / GCounter.value states",
+    "fn": _store_gossip_standin})
+
+from specs.c18_ext import *  # noqa: E402,F401,F403  (registers the extension's classes, tasks and stubs)
